@@ -151,7 +151,7 @@ def main():
             by_sig[sig] = f
     cov["unknown_failures"] = {sig: sum(1 for f in res["failures"] if f.get("signature") == sig) for sig in by_sig}
     for sig, f in sorted(by_sig.items())[:6]:
-        if f.get("events") and f.get("config") and "binary" in ctx:
+        if f.get("events") and f.get("config") and "binary" in ctx and not f.get("no_shrink"):
             try:
                 f = props.shrink_failure(ctx["binary"], pid, f)
             except Exception:
